@@ -17,11 +17,11 @@ type c12Rec struct {
 }
 
 type cutObs struct {
-	N    int      `json:"n"`
-	Open string   `json:"open,omitempty"` // error of Open (sequential reader), "" = ok
-	Seq  []recOut `json:"seq"`
-	At   []recOut `json:"at"` // ReadNextAt at every original record offset
-	MOpen string  `json:"mopen,omitempty"`
+	N     int      `json:"n"`
+	Open  string   `json:"open,omitempty"` // error of Open (sequential reader), "" = ok
+	Seq   []recOut `json:"seq"`
+	At    []recOut `json:"at"` // ReadNextAt at every original record offset
+	MOpen string   `json:"mopen,omitempty"`
 }
 
 type altObs struct {
@@ -40,11 +40,11 @@ type fhObs struct {
 }
 
 type c12Case struct {
-	Mode string   `json:"mode"` // cut | hdr | filehdr
-	Comp int      `json:"comp"`
-	RBuf int      `json:"rbuf"`
-	Recs []c12Rec `json:"recs"`
-	Vals []int    `json:"vals,omitempty"` // replacement values for hdr mode (empty = all 255 others)
+	Mode string      `json:"mode"` // cut | hdr | filehdr
+	Comp int         `json:"comp"`
+	RBuf int         `json:"rbuf"`
+	Recs []c12Rec    `json:"recs"`
+	Vals []int       `json:"vals,omitempty"` // replacement values for hdr mode (empty = all 255 others)
 	FH   [][2]uint32 `json:"fh,omitempty"`
 	// observations
 	File  []byte   `json:"file"`
@@ -426,8 +426,8 @@ func genC12(r *rand.Rand, tier string) []Case {
 func init() {
 	register(&Prop{
 		ID: "C12", Num: 12,
-		Gen: genC12,
-		New: func() Case { return &c12Case{} },
+		Gen:  genC12,
+		New:  func() Case { return &c12Case{} },
 		Rule: "cut: files of 1-5 adversarial records per compression type, every truncation length 0..size, sequential reader and ReadNextAt at every record offset; hdr: every header byte of every record x all 255 other values (short files) or {00,ff,91,8d,4c,01,80} (longer files), both readers; filehdr: version 0..9 x compression 0..6 plus large values. Non-trivial: >=2 records (or file-header grid).",
 		Classify: func(cs Case, msg string) string {
 			c := cs.(*c12Case)
